@@ -48,7 +48,7 @@ func genPrintCase(r *Rng, tier string) PrintCase {
 		c := PrintCase{Kind: "constr", Constrs: cc.Constrs, Front: cc.Front}
 		n := maxVarConstrs(cc.Constrs)
 		if n > 0 && r.Chance(2, 3) {
-			c.CostLits, c.CostW = genCost(r, n, false)
+			c.CostLits, c.CostW = genCost(r, n, r.Chance(1, 3)) // negative cost coefficients are legal OPB
 			if c.CostW == nil {
 				c.NilW = true
 			}
